@@ -196,6 +196,13 @@ def extract_perm_stages(order: int):
                 a = node.body[0]
                 if ast.unparse(a.targets[0]) == f"perm_decompr_idx[{tgt}]":
                     v = ast.unparse(a.value)
+                    if isinstance(a.value, ast.Name):
+                        # resolve a hoisted representative: `name = <expr>` inside the batch loop
+                        defs = [n for n in ast.walk(up) if isinstance(n, ast.Assign)
+                                and ast.unparse(n.targets[0]) == v]
+                        if len(defs) != 1:
+                            fail(rel, a, f"representative name {v} not uniquely defined")
+                        v = ast.unparse(defs[0].value)
                     if v == "decompr_idx_combs_perm[:, 0]":
                         rep = "col0"
                     elif v in ("decompr_idx_combs_perm.min(axis=1)", "np.min(decompr_idx_combs_perm, axis=1)"):
@@ -478,10 +485,767 @@ def gen_cutoff():
 
 
 # ----------------------------------------------------------------------------------------
+# G2: solvers
+# ----------------------------------------------------------------------------------------
+
+def mono_of(node, rel, env=None):
+    """monomial coef * N^e * nx^f * n^g of an arithmetic AST (Mult / Pow / names N, nx, n / ints)"""
+    env = env or {}
+    if isinstance(node, ast.Constant) and isinstance(node.value, int):
+        return (node.value, 0, 0, 0)
+    if isinstance(node, ast.Name):
+        if node.id == "N":
+            return (1, 1, 0, 0)
+        if node.id == "nx":
+            return (1, 0, 1, 0)
+        if node.id == "n":
+            return (1, 0, 0, 1)
+        if node.id in env:
+            return env[node.id]
+        fail(rel, node, f"unknown name {node.id} in monomial")
+    if isinstance(node, ast.BinOp) and isinstance(node.op, ast.Mult):
+        a = mono_of(node.left, rel, env)
+        b = mono_of(node.right, rel, env)
+        return (a[0] * b[0], a[1] + b[1], a[2] + b[2], a[3] + b[3])
+    if isinstance(node, ast.BinOp) and isinstance(node.op, ast.Pow) and isinstance(node.right, ast.Constant):
+        a = mono_of(node.left, rel, env)
+        k = node.right.value
+        return (a[0] ** k, a[1] * k, a[2] * k, a[3] * k)
+    fail(rel, node, f"not a monomial: {ast.unparse(node)}")
+
+
+def lean_mono(m):
+    coef, e, f, g = m
+    if f > 1 or g > 0:
+        raise Untranslatable(f"monomial with nx^{f} n^{g} unsupported")
+    return f"{{ coef := {coef}, nPow := {e}, nx := {'true' if f else 'false'} }}"
+
+
+def extract_chain(rel, fname):
+    mod = parse(rel)
+    fn = find_func(mod, fname, rel)
+    env = {}
+    loop = None
+    batch_guarded = None
+    for st in strip_doc(fn.body):
+        if isinstance(st, ast.Assign) and isinstance(st.targets[0], ast.Name):
+            nm = st.targets[0].id
+            src = ast.unparse(st.value)
+            if nm in ("N3", "NN33", "NNN333", "n3nx"):
+                env[nm] = mono_of(st.value, rel, env)
+            elif nm == "batch_size":
+                batch_guarded = src == "len(mat.row) if len(mat.row) < n_batch else len(mat.row) // n_batch"
+                if not batch_guarded:
+                    fail(rel, st, f"unexpected batch_size {src}")
+        if isinstance(st, ast.Assign) and "get_batch_slice" in ast.unparse(st.value):
+            src = ast.unparse(st.value)
+            if src == "get_batch_slice(len(mat.row), len(mat.row) // n_batch)":
+                batch_guarded = False
+            elif src == "get_batch_slice(len(mat.row), batch_size)":
+                pass
+            else:
+                fail(rel, st, f"unexpected batch slice {src}")
+        if isinstance(st, ast.For):
+            loop = st
+    if loop is None or ast.unparse(loop.iter) != "zip(begin_batch, end_batch)":
+        fail(rel, fn, "batch loop not found")
+    steps = []
+    rem_target = None
+    cur_seen = False
+    have_div = False
+    for st in loop.body:
+        src = ast.unparse(st)
+        if isinstance(st, ast.Assign) and isinstance(st.value, ast.Call) and ast.unparse(st.value.func) == "np.divmod":
+            tg = ast.unparse(st.targets[0])
+            if tg not in ("div, rem", "(div, rem)"):
+                fail(rel, st, f"unexpected divmod targets {tg}")
+            a0 = ast.unparse(st.value.args[0])
+            if not cur_seen:
+                if a0 != "mat.row[begin:end]":
+                    fail(rel, st, "first divmod must read mat.row[begin:end]")
+                cur_seen = True
+            elif a0 != "rem":
+                fail(rel, st, "later divmod must read rem")
+            cur_div = mono_of(st.value.args[1], rel, env)
+            steps.append({"divisor": cur_div, "acts": []})
+            continue
+        tgt = None
+        if isinstance(st, (ast.AugAssign, ast.Assign)):
+            t = st.target if isinstance(st, ast.AugAssign) else st.targets[0]
+            ts = ast.unparse(t)
+            if ts == "mat.row[begin:end]":
+                tgt = "row"
+            elif ts == "mat.col[begin:end]":
+                tgt = "col"
+        if tgt is None or not steps:
+            fail(rel, st, f"unexpected statement in reshape loop: {src}")
+        if isinstance(st, ast.AugAssign) and not isinstance(st.op, ast.Add):
+            fail(rel, st, f"unexpected operator in {src}")
+        assign = isinstance(st, ast.Assign)
+        val = st.value
+        # forms: div * M | rem | div * M + rem
+        terms = []
+        if isinstance(val, ast.BinOp) and isinstance(val.op, ast.Add):
+            terms = [val.left, val.right]
+        else:
+            terms = [val]
+        for tm in terms:
+            if isinstance(tm, ast.Name) and tm.id == "rem":
+                if assign:
+                    fail(rel, st, "rem must be accumulated, not assigned")
+                rem_target = tgt
+            else:
+                # div * M : strip the leading `div`
+                flat_names = [n.id for n in ast.walk(tm) if isinstance(n, ast.Name)]
+                if flat_names.count("div") != 1:
+                    fail(rel, st, f"expected exactly one `div` in {ast.unparse(tm)}")
+                m = mono_of(tm, rel, {**env, "div": (1, 0, 0, 0)})
+                steps[-1]["acts"].append({"target": tgt, "mult": m, "assign": assign})
+    if rem_target is None:
+        fail(rel, fn, "final remainder is never used")
+    out_steps = []
+    for stp in steps:
+        if len(stp["acts"]) != 1:
+            fail(rel, fn, f"each divmod quotient must be used exactly once, got {len(stp['acts'])}")
+        a = stp["acts"][0]
+        out_steps.append((stp["divisor"], a["target"], a["mult"], a["assign"]))
+    # resize
+    rs = [n for n in ast.walk(fn) if isinstance(n, ast.Call) and ast.unparse(n.func) == "mat.resize"]
+    if len(rs) != 1:
+        fail(rel, fn, "mat.resize not found")
+    shp = rs[0].args[0]
+    if not isinstance(shp, ast.Tuple) or len(shp.elts) != 2:
+        fail(rel, rs[0], "unexpected resize shape")
+    out_rows = mono_of(shp.elts[0], rel, env)
+    out_cols = mono_of(shp.elts[1], rel, env)
+    if out_cols != (3, 0, 1, 1):
+        fail(rel, rs[0], f"resize columns must be n*3*nx, got {ast.unparse(shp.elts[1])}")
+    rec(rel, fn, f"{fname} divmod chain",
+        {"steps": [[list(d), t, list(m), a] for d, t, m, a in out_steps], "remTarget": rem_target,
+         "zero_batch_guarded": batch_guarded})
+    lean = "{ steps := [" + ", ".join(
+        f"{{ divisor := {lean_mono(d)}, target := .{t}, mult := {lean_mono(m)}, assign := {'true' if a else 'false'} }}"
+        for d, t, m, a in out_steps) + f"], remTarget := .{rem_target}, outRows := {lean_mono(out_rows)} }}"
+    return lean, bool(batch_guarded)
+
+
+def frac_of(node, rel):
+    if isinstance(node, ast.Constant) and isinstance(node.value, (int, float)):
+        return Fraction(str(node.value))
+    if isinstance(node, ast.UnaryOp) and isinstance(node.op, ast.USub):
+        return -frac_of(node.operand, rel)
+    if isinstance(node, ast.BinOp):
+        a, b = frac_of(node.left, rel), frac_of(node.right, rel)
+        if isinstance(node.op, ast.Div):
+            return a / b
+        if isinstance(node.op, ast.Mult):
+            return a * b
+        if isinstance(node.op, ast.Add):
+            return a + b
+        if isinstance(node.op, ast.Sub):
+            return a - b
+    fail(rel, node, f"not a rational constant: {ast.unparse(node)}")
+
+
+SOLVERS = {
+    "O2": [2], "O3": [3], "O4": [4], "O2O3": [2, 3], "O3O4": [3, 4], "O2O3O4": [2, 3, 4],
+}
+DISP_EXPR = {
+    2: ["disps[begin:end]"],
+    3: ["set_disps_N3N3(disps[begin:end], sparse=False)", "disps_N3N3"],
+    4: ["set_disps_N3N3N3(disps[begin:end], sparse=False)",
+        "set_disps_N3N3N3(disps[begin:end], sparse=False, disps_N3N3=disps_N3N3)"],
+}
+RESHAPE = {2: "reshape_nN33_nx_to_N3_n3nx", 3: "reshape_nNN333_nx_to_N3N3_n3nx", 4: "reshape_nNNN3333_nx_to_N3N3N3_n3nx"}
+NPOW = {2: "N", 3: "NN", 4: "NNN"}
+
+
+def extract_solver(name, orders):
+    rel = f"solvers/solver_{name}.py"
+    mod = parse(rel)
+    fn = find_func(mod, f"prepare_normal_equation_{name}", rel)
+    src = ast.unparse(fn)
+    params = [a.arg for a in fn.args.args]
+    consts = {}
+    for node in ast.walk(fn):
+        if isinstance(node, ast.Assign) and isinstance(node.targets[0], ast.Name) \
+                and node.targets[0].id.startswith("const_fc"):
+            k = int(node.targets[0].id[len("const_fc"):])
+            consts[k] = frac_of(node.value, rel)
+            rec(rel, node, f"solver {name} const_fc{k}", str(consts[k]))
+    if sorted(consts) != orders:
+        fail(rel, fn, f"constants for orders {sorted(consts)} but solver fits {orders}")
+    six = {}
+    for k, c in consts.items():
+        v = c * 6
+        if abs(float(v) - round(float(v))) > 1e-9:
+            fail(rel, fn, f"const_fc{k} = {c}: 6*const is not an integer")
+        six[k] = int(round(float(v)))
+    want = []
+    for k in orders:
+        p3 = 3 ** k
+        want += [
+            f"compact_compress_mat_fc{k} *= const_fc{k}",
+            f"compact_compress_mat_fc{k} /= const_fc{k}",
+            (f"decompr_idx = (atomic_decompr_idx_fc{k}[begin_i * {NPOW[k]}:end_i * {NPOW[k]}, None] * {p3} + "
+             f"np.arange({p3})[None, :]).reshape(-1)"),
+            f"compr_mat_fc{k} = {RESHAPE[k]}(compact_compress_mat_fc{k}[decompr_idx], N, n_atom_batch)",
+            f"mat{k}y += X{k}.T @ y",
+            f"mat{k}y = compress_eigvecs_fc{k}.T @ mat{k}y" if len(orders) > 1 else f"XTy = compress_eigvecs_fc{k}.T @ mat{k}y",
+        ]
+        if f"compact_compress_mat_fc{k}" not in params:
+            fail(rel, fn, f"compact_compress_mat_fc{k} must be a parameter (it is scaled in place)")
+        xs = [f"X{k} = dot_product_sparse({d}, compr_mat_fc{k}, use_mkl=use_mkl, dense=True).reshape((-1, n_compr_fc{k}))"
+              for d in DISP_EXPR[k]]
+        if not any(x in src for x in xs):
+            fail(rel, fn, f"design block X{k} has unexpected form")
+        for k2 in orders:
+            if k2 >= k:
+                want.append(f"mat{k}{k2} += X{k}.T @ X{k2}")
+                if len(orders) > 1:
+                    want.append(f"mat{k}{k2} = compress_eigvecs_fc{k}.T @ mat{k}{k2} @ compress_eigvecs_fc{k2}")
+                else:
+                    want.append(f"XTX = compress_eigvecs_fc{k}.T @ mat{k}{k2} @ compress_eigvecs_fc{k2}")
+    if "\n            disps_N3N3 = " in src and "disps_N3N3 = set_disps_N3N3(disps[begin:end], sparse=False)" not in src:
+        fail(rel, fn, "disps_N3N3 has unexpected definition")
+    want += [
+        "y = forces[begin:end, begin_i * 3:end_i * 3].reshape(-1)",
+        "begin_batch_atom, end_batch_atom = get_batch_slice(N, N // n_batch)",
+        "begin_batch, end_batch = get_batch_slice(disps.shape[0], batch_size)",
+        "for begin_i, end_i in zip(begin_batch_atom, end_batch_atom)",
+        "for begin, end in zip(begin_batch, end_batch)",
+        "n_atom_batch = end_i - begin_i",
+        "N = N3 // 3", "N3 = disps.shape[1]",
+    ]
+    if len(orders) == 2:
+        a, b = orders
+        want += [f"XTX = np.block([[mat{a}{a}, mat{a}{b}], [mat{a}{b}.T, mat{b}{b}]])",
+                 f"XTy = np.hstack([mat{a}y, mat{b}y])"]
+    if len(orders) == 3:
+        want += ["XTX = np.block([[mat22, mat23, mat24], [mat23.T, mat33, mat34], [mat24.T, mat34.T, mat44]])",
+                 "XTy = np.hstack([mat2y, mat3y, mat4y])"]
+    for w in want:
+        if w not in src:
+            fail(rel, fn, f"expected `{w}` in prepare_normal_equation_{name}")
+    # n_batch formula: last plain assignment(s) before get_batch_slice
+    nb = [ast.unparse(n.value) for n in fn.body if isinstance(n, ast.Assign)
+          and isinstance(n.targets[0], ast.Name) and n.targets[0].id == "n_batch"]
+    rec(rel, fn, f"solver {name} n_batch formula", nb)
+    if name != "O2" and "min(N, n_batch)" not in nb:
+        fail(rel, fn, "n_batch must be clipped by min(N, n_batch)")
+    # coefficient split
+    run = find_func(mod, f"run_solver_{name}", rel)
+    rsrc = ast.unparse(run)
+    if "coefs = solve_linear_equation(XTX, XTy)" not in rsrc:
+        fail(rel, run, "run_solver must call solve_linear_equation(XTX, XTy)")
+    if len(orders) == 2:
+        a, b = orders
+        if f"coefs_fc{a}, coefs_fc{b} = (coefs[:n_basis_fc{a}], coefs[n_basis_fc{a}:])" not in rsrc \
+                or f"n_basis_fc{a} = compress_eigvecs_fc{a}.shape[1]" not in rsrc:
+            fail(rel, run, "unexpected coefficient split")
+    if len(orders) == 3:
+        if ("coefs_fc2, coefs_fc3, coefs_fc4 = (coefs[:n_basis_fc2], coefs[n_basis_fc2:n_basis_fc2 + n_basis_fc3], "
+                "coefs[n_basis_fc2 + n_basis_fc3:])") not in rsrc:
+            fail(rel, run, "unexpected coefficient split")
+    # class: solve passes accessor results; _recover_fcs
+    cls = f"FCSolver{name}"
+    solve = find_func(mod, "solve", rel, cls)
+    ssrc = ast.unparse(solve)
+    rec_fn = find_func(mod, "_recover_fcs", rel, cls)
+    rsrc2 = ast.unparse(rec_fn)
+    for idx, k in enumerate(orders):
+        b = f"fc{k}_basis"
+        if f"compress_mat_fc{k} = {b}.compact_compression_matrix" not in ssrc:
+            fail(rel, solve, f"solve must pass {b}.compact_compression_matrix")
+        if f"basis_set_fc{k} = {b}.basis_set" not in ssrc:
+            fail(rel, solve, f"solve must pass {b}.basis_set")
+        coef = "self._coefs" if len(orders) == 1 else f"self._coefs[{idx}]"
+        dims = ", ".join(["-1"] + ["N"] * (k - 1) + ["3"] * k)
+        for w in (f"fc{k} = {b}.basis_set @ {coef}",
+                  f"fc{k} = np.array((comp_mat_fc{k} @ fc{k}).reshape(({dims})), dtype='double', order='C')",
+                  f"comp_mat_fc{k} = {b}.compression_matrix",
+                  f"comp_mat_fc{k} = {b}.compact_compression_matrix"):
+            if w not in rsrc2:
+                fail(rel, rec_fn, f"expected `{w}` in _recover_fcs")
+        bsel = "self._basis_set" if len(orders) == 1 else f"self._basis_set[{idx}]"
+        if f"{b}: FCBasisSetO{k} = {bsel}" not in rsrc2 or f"{b}: FCBasisSetO{k} = {bsel}" not in ssrc:
+            fail(rel, rec_fn, f"basis set {b} must be {bsel}")
+    if "f = forces.reshape(n_data, -1)" not in ssrc or "d = displacements.reshape(n_data, -1)" not in ssrc:
+        fail(rel, solve, "solve must flatten displacements/forces per snapshot")
+    return six, nb
+
+
+def extract_accessor_fresh():
+    """C12.b: `compact_compression_matrix` returns a NEW object (binary expression), `basis_set` is only read."""
+    ok = {}
+    for k in (2, 3, 4):
+        rel = f"basis_sets/basis_sets_O{k}.py"
+        mod = parse(rel)
+        fn = find_func(mod, "compact_compression_matrix", rel, f"FCBasisSetO{k}")
+        rets = [n for n in ast.walk(fn) if isinstance(n, ast.Return)]
+        fresh = len(rets) == 1 and isinstance(rets[0].value, ast.BinOp) and \
+            ast.unparse(rets[0].value) == "self._n_a_compression_matrix / np.sqrt(n_lp)"
+        rec(rel, fn, f"O{k} compact_compression_matrix returns a fresh matrix", fresh)
+        ok[k] = fresh
+        fn2 = find_func(mod, "compression_matrix", rel, f"FCBasisSetO{k}")
+        if "dot_product_sparse(c_trans, self._n_a_compression_matrix" not in ast.unparse(fn2):
+            fail(rel, fn2, "compression_matrix must be c_trans @ n_a_compression_matrix")
+    return ok
+
+
+def gen_solver():
+    out = ["/- REGENERATED by tools/extract.py from solvers/solver_*.py, utils/solver_funcs.py — do not edit. -/",
+           "import SymfcModel.Model.Types", "namespace Symfc.Gen", "open Symfc", ""]
+    guarded = {}
+    for k, (rel, fname) in {2: ("solvers/solver_O2.py", RESHAPE[2]), 3: ("solvers/solver_O2O3.py", RESHAPE[3]),
+                            4: ("solvers/solver_O2O3O4.py", RESHAPE[4])}.items():
+        lean, g = extract_chain(rel, fname)
+        guarded[k] = g
+        out.append(f"def chainO{k} : Chain :=\n  {lean}")
+    out.append("def chainZeroBatchGuarded : List (Nat × Bool) := [" +
+               ", ".join(f"({k}, {'true' if g else 'false'})" for k, g in guarded.items()) + "]")
+    rows = []
+    for name, orders in SOLVERS.items():
+        six, nb = extract_solver(name, orders)
+        rows.append(f"  ({json.dumps(name)}, [" + ", ".join(f"({k}, {six[k]})" for k in orders) + "])")
+    out.append("/-- per solver: (order, 6 × Taylor constant) -/")
+    out.append("def solverConst6 : List (String × List (Nat × Int)) := [\n" + ",\n".join(rows) + "]")
+    fresh = extract_accessor_fresh()
+    out.append("def accessorFresh : List (Nat × Bool) := [" +
+               ", ".join(f"({k}, {'true' if v else 'false'})" for k, v in fresh.items()) + "]")
+    # solve_linear_equation: is posv's info inspected?
+    rel = "utils/solver_funcs.py"
+    mod = parse(rel)
+    fn = find_func(mod, "solve_linear_equation", rel)
+    src = ast.unparse(fn)
+    info_checked = False
+    for node in ast.walk(fn):
+        if isinstance(node, ast.Assign) and isinstance(node.value, ast.Call) and ast.unparse(node.value.func) == "posv":
+            tg = node.targets[0]
+            if isinstance(tg, ast.Tuple) and len(tg.elts) == 3 and isinstance(tg.elts[2], ast.Name) \
+                    and tg.elts[2].id != "_":
+                nm = tg.elts[2].id
+                for n2 in ast.walk(fn):
+                    if isinstance(n2, ast.If) and nm in ast.unparse(n2.test) and \
+                            any(isinstance(b, ast.Raise) for b in n2.body):
+                        info_checked = True
+            if "lower=False" not in ast.unparse(node.value):
+                fail(rel, node, "posv must be called with lower=False")
+    rec(rel, fn, "solve_linear_equation raises when posv info != 0", info_checked)
+    out.append(f"def posvInfoChecked : Bool := {'true' if info_checked else 'false'}")
+    fit = ast.unparse(find_func(mod, "fit", rel))
+    for w in ("A = np.dot(X.T, X)", "Xy = np.dot(X.T, y)", "coefs = solve_linear_equation(A, Xy)"):
+        if w not in fit:
+            fail(rel, mod, f"fit: expected `{w}`")
+    gbs = ast.unparse(find_func(mod, "get_batch_slice", rel))
+    for w in ("begin_batch = list(range(0, n_data, batch_size))", "end_batch = list(begin_batch[1:]) + [n_data]",
+              "end_batch = [n_data]", "if len(begin_batch) > 1"):
+        if w not in gbs:
+            fail(rel, mod, f"get_batch_slice: expected `{w}`")
+    out += ["", "end Symfc.Gen"]
+    return "\n".join(out) + "\n"
+
+
+# ----------------------------------------------------------------------------------------
+# G3: api_symfc.py
+# ----------------------------------------------------------------------------------------
+
+def gen_api():
+    rel = "api_symfc.py"
+    mod = parse(rel)
+    cls = "Symfc"
+    # ---- _check_orders
+    co = find_func(mod, "_check_orders", rel, cls)
+    body = strip_doc(co.body)
+    if len(body) != 3 or not all(isinstance(b, ast.If) for b in body[:2]) or not isinstance(body[2], ast.Return):
+        fail(rel, co, "_check_orders: expected `if both None: raise; if max_order is not None: .. else: ..; return orders`")
+    if ast.unparse(body[0].test) != "max_order is None and orders is None" or not isinstance(body[0].body[0], ast.Raise):
+        fail(rel, body[0], "_check_orders: first guard must reject missing specification")
+    if ast.unparse(body[1].test) != "max_order is not None":
+        fail(rel, body[1], "_check_orders: second statement must branch on max_order")
+    mo = body[1].body
+    if not (len(mo) == 2 and isinstance(mo[0], ast.If) and isinstance(mo[0].body[0], ast.Raise)):
+        fail(rel, body[1], "_check_orders: max_order branch shape")
+    t = mo[0].test
+    if not (isinstance(t, ast.Compare) and ast.unparse(t.left) == "max_order" and isinstance(t.ops[0], ast.NotIn)):
+        fail(rel, t, "_check_orders: `max_order not in (...)` expected")
+    mo_white = list(lit(t.comparators[0], rel))
+    if ast.unparse(mo[1]) != "orders = tuple(list(range(2, max_order + 1)))":
+        fail(rel, mo[1], "_check_orders: orders = tuple(list(range(2, max_order + 1))) expected")
+    oe = body[1].orelse
+    if not (len(oe) == 2 and ast.unparse(oe[0]) == "orders = tuple(sorted(orders))" and isinstance(oe[1], ast.If)
+            and isinstance(oe[1].body[0], ast.Raise)):
+        fail(rel, body[1], "_check_orders: orders branch shape")
+    t2 = oe[1].test
+    if not (isinstance(t2, ast.Compare) and ast.unparse(t2.left) == "orders" and isinstance(t2.ops[0], ast.NotIn)):
+        fail(rel, t2, "_check_orders: `orders not in [...]` expected")
+    o_white = [list(x) for x in lit(t2.comparators[0], rel)]
+    if ast.unparse(body[2]) != "return orders":
+        fail(rel, body[2], "_check_orders must return orders")
+    rec(rel, co, "_check_orders whitelists", {"max_order": mo_white, "orders": o_white})
+    # ---- _check_dataset
+    cd = find_func(mod, "_check_dataset", rel, cls)
+    guards = []
+    GMAP = {
+        "self._displacements is None": "dispNone",
+        "self._forces is None": "forcesNone",
+        "self._displacements.shape != self._forces.shape": "shapeMismatch",
+        "self._displacements.ndim != 3 or self._displacements.shape[1:] != (len(self._supercell), 3)": "dispShape",
+        "self._forces.ndim != 3 or self._forces.shape[1:] != (len(self._supercell), 3)": "forcesShape",
+    }
+    for st in strip_doc(cd.body):
+        if not (isinstance(st, ast.If) and len(st.body) == 1 and isinstance(st.body[0], ast.Raise) and not st.orelse):
+            fail(rel, st, "_check_dataset: every statement must be `if <guard>: raise`")
+        g = GMAP.get(ast.unparse(st.test))
+        if g is None:
+            fail(rel, st, f"_check_dataset: unknown guard {ast.unparse(st.test)}")
+        guards.append(g)
+    rec(rel, cd, "_check_dataset guards", guards)
+    # ---- solve
+    sv = find_func(mod, "solve", rel, cls)
+    sb = strip_doc(sv.body)
+    checks_first = (len(sb) >= 3 and ast.unparse(sb[0]) == "self._check_dataset()"
+                    and ast.unparse(sb[1]) == "orders = self._check_orders(max_order, orders)")
+    rec(rel, sv, "solve validates dataset and orders before anything else", checks_first)
+    if not isinstance(sb[2], ast.If) or ast.unparse(sb[-1]) != "return self" or len(sb) != 4:
+        fail(rel, sv, "solve: expected checks, one if/elif dispatch, return self")
+    branches = []
+    node = sb[2]
+    while True:
+        t = node.test
+        if not (isinstance(t, ast.Compare) and ast.unparse(t.left) == "orders" and isinstance(t.ops[0], ast.Eq)):
+            fail(rel, t, "solve: dispatch test must be `orders == (...)`")
+        ords = list(lit(t.comparators[0], rel))
+        basis_keys, fc_keys = [], []
+        solver_line = None
+        first_write = None
+        passes_batch = False
+        solver_cls = None
+        for st in node.body:
+            src = ast.unparse(st)
+            for n2 in ast.walk(st):
+                if isinstance(n2, ast.Subscript) and ast.unparse(n2.value) == "self._basis_set" and isinstance(n2.ctx, ast.Load):
+                    basis_keys.append(lit(n2.slice, rel))
+                if isinstance(n2, ast.Subscript) and ast.unparse(n2.value) == "self._force_constants" and isinstance(n2.ctx, ast.Store):
+                    fc_keys.append(lit(n2.slice, rel))
+                    if first_write is None:
+                        first_write = st.lineno
+                if isinstance(n2, ast.Call) and isinstance(n2.func, ast.Attribute) and n2.func.attr == "solve" \
+                        and isinstance(n2.func.value, ast.Call) and ast.unparse(n2.func.value.func).startswith("FCSolver"):
+                    solver_line = st.end_lineno
+                    solver_cls = ast.unparse(n2.func.value.func)
+                    args = [ast.unparse(a) for a in n2.args]
+                    if args != ["self._displacements", "self._forces"]:
+                        fail(rel, n2, f"solver.solve must receive the stored dataset, got {args}")
+                    passes_batch = any(k.arg == "batch_size" and ast.unparse(k.value) == "batch_size" for k in n2.keywords)
+                    ctor = n2.func.value
+                    bs_arg = ast.unparse(ctor.args[0]) if ctor.args else ""
+        if solver_line is None:
+            fail(rel, node, f"solve branch {ords}: solver call not found")
+        expect_cls = "FCSolver" + "".join(f"O{k}" for k in ords)
+        if solver_cls != expect_cls:
+            fail(rel, node, f"solve branch {ords}: expected {expect_cls}, found {solver_cls}")
+        writes_after = first_write is not None and first_write > solver_line
+        fc_keys_u = sorted(set(fc_keys))
+        branches.append({"orders": ords, "basisKeys": sorted(set(basis_keys)), "fcKeys": fc_keys_u,
+                         "writesAfter": writes_after, "passesBatch": passes_batch})
+        # compact/full selection must not change which keys are written
+        sel = [n for n in node.body if isinstance(n, ast.If) and ast.unparse(n.test) == "is_compact_fc"]
+        if len(sel) != 1:
+            fail(rel, node, f"solve branch {ords}: `if is_compact_fc` selection expected")
+        csrc, fsrc = ast.unparse(sel[0].body), ast.unparse(sel[0].orelse)
+        if ".compact_fc" not in csrc or ".full_fc" not in fsrc:
+            fail(rel, sel[0], f"solve branch {ords}: compact/full accessors expected")
+        if len(node.orelse) == 1 and isinstance(node.orelse[0], ast.If):
+            node = node.orelse[0]
+        elif not node.orelse:
+            break
+        else:
+            fail(rel, node, "solve: unexpected else branch")
+    rec(rel, sv, "solve dispatch", branches)
+    # ---- run
+    rn = find_func(mod, "run", rel, cls)
+    rb = strip_doc(rn.body)
+    run_guarded = (len(rb) == 2 and isinstance(rb[0], ast.If)
+                   and ast.unparse(rb[0].test) == "self._displacements is not None and self._forces is not None"
+                   and len(rb[0].body) == 2 and not rb[0].orelse
+                   and ast.unparse(rb[0].body[0]) == "self.compute_basis_set(max_order=max_order, orders=orders)"
+                   and ast.unparse(rb[0].body[1]).replace(" ", "") ==
+                   "self.solve(max_order=max_order,orders=orders,is_compact_fc=is_compact_fc,batch_size=batch_size)"
+                   and ast.unparse(rb[1]) == "return self")
+    rec(rel, rn, "run = guarded compute_basis_set; solve", run_guarded)
+    # ---- compute_basis_set
+    cb = find_func(mod, "compute_basis_set", rel, cls)
+    cbb = strip_doc(cb.body)
+    if not (isinstance(cbb[0], ast.For) and ast.unparse(cbb[0].iter) == "self._check_orders(max_order, orders)"):
+        fail(rel, cb, "compute_basis_set must iterate over _check_orders(...)")
+    cut_keys = []
+    node = cbb[0].body[0]
+    while isinstance(node, ast.If):
+        k = lit(node.test.comparators[0], rel)
+        src = ast.unparse(node.body)
+        if f"FCBasisSetO{k}(self._supercell" not in src or f"self._basis_set[{k}] = basis_set_o{k}" not in src \
+                or "spacegroup_operations=self._spacegroup_operations" not in src or ".run()" not in src:
+            fail(rel, node, f"compute_basis_set branch {k} has unexpected form")
+        import re
+        m = re.search(r"cutoff=self\._cutoff\[(\d)\]", src)
+        if not m:
+            fail(rel, node, f"compute_basis_set branch {k}: cutoff key not found")
+        cut_keys.append((k, int(m.group(1))))
+        node = node.orelse[0] if node.orelse else None
+    rec(rel, cb, "compute_basis_set cutoff keys", cut_keys)
+    # ---- _prepare_cutoff
+    pc = ast.unparse(find_func(mod, "_prepare_cutoff", rel, cls))
+    for w in ("self._cutoff = {2: None, 3: None, 4: None}", "self._cutoff = cutoff", "for order in (2, 3, 4)",
+              "if order not in self._cutoff", "self._cutoff[order] = None"):
+        if w not in pc:
+            fail(rel, mod, f"_prepare_cutoff: expected `{w}`")
+
+    def br(b):
+        return (f"  {{ orders := {lean_list(b['orders'])}, basisKeys := {lean_list(b['basisKeys'])}, "
+                f"fcKeys := {lean_list(b['fcKeys'])}, writesAfter := {lean_list(b['writesAfter'])}, "
+                f"passesBatch := {lean_list(b['passesBatch'])} }}")
+    out = ["/- REGENERATED by tools/extract.py from api_symfc.py — do not edit. -/",
+           "import SymfcModel.Model.Types", "namespace Symfc.Gen", "open Symfc", "",
+           f"def maxOrderWhitelist : List Nat := {lean_list(mo_white)}",
+           f"def ordersWhitelist : List (List Nat) := {lean_list(o_white)}",
+           "def datasetGuards : List Guard := [" + ", ".join("." + g for g in guards) + "]",
+           f"def solveChecksFirst : Bool := {lean_list(checks_first)}",
+           "def solveBranches : List SolveBranch := [\n" + ",\n".join(br(b) for b in branches) + "]",
+           f"def runGuarded : Bool := {lean_list(run_guarded)}",
+           "def computeCutoffKeys : List (Nat × Nat) := [" + ", ".join(f"({a}, {b})" for a, b in cut_keys) + "]",
+           "", "end Symfc.Gen"]
+    return "\n".join(out) + "\n"
+
+
+# ----------------------------------------------------------------------------------------
+# G4: eig_tools.py
+# ----------------------------------------------------------------------------------------
+
+def gen_eig():
+    rel = "utils/eig_tools.py"
+    mod = parse(rel)
+    ep = find_func(mod, "eigh_projector", rel)
+    esrc = ast.unparse(ep)
+    tol = None
+    for node in ast.walk(ep):
+        if isinstance(node, ast.Assign) and ast.unparse(node.targets[0]) == "tol":
+            tol = lit(node.value, rel)
+    for w in ("rank = int(round(np.trace(p)))", "if rank == 0", "nonzero = np.isclose(eigvals, 1.0)",
+              "np.count_nonzero((eigvals > 1.0 + tol) | (eigvals < -tol))", "return eigvecs[:, nonzero]",
+              "compr_bool = np.logical_not(nonzero)",
+              "return (eigvecs[:, nonzero], (eigvals[compr_bool], eigvecs[:, compr_bool]))"):
+        if w not in esrc:
+            fail(rel, ep, f"eigh_projector: expected `{w}`")
+    rec(rel, ep, "eigh_projector tolerance", tol)
+    es = find_func(mod, "eigsh_projector", rel)
+    rule = "other"
+    for node in ast.walk(es):
+        if isinstance(node, ast.If):
+            t = ast.unparse(node.test)
+            if t == "not np.isclose(p_block[0], 0.0)":
+                rule = "keepIfNotCloseZero"
+            elif t == "np.isclose(p_block[0], 1.0)":
+                rule = "keepIfCloseOne"
+    rec(rel, es, "eigsh_projector 1x1 rule", rule)
+    ssrc = ast.unparse(es)
+    for w in ("p, compr_p = _compr_projector(p)", "group = _find_projector_blocks(p)", "key = tuple(p_block)",
+              "uniq_eigvecs[key][1].append(block_label)", "uniq_eigvecs[key] = [eigvecs, [block_label]]",
+              "if block_size > 1", "c_p = _recover_eigvecs_from_uniq_eigvecs(uniq_eigvecs, group, p.shape[0])",
+              "return compr_p @ c_p"):
+        if w not in ssrc:
+            fail(rel, es, f"eigsh_projector: expected `{w}`")
+    bl = find_func(mod, "_block_eigh_projector", rel)
+    bsrc = ast.unparse(bl)
+    tgt = None
+    for node in ast.walk(bl):
+        if isinstance(node, ast.Assign) and ast.unparse(node.targets[0]) == "target_size" \
+                and ast.unparse(node.value).startswith("min(max("):
+        
+            import re
+            m = re.fullmatch(r"min\(max\(p_size // (\d+), (\d+)\), (\d+)\)", ast.unparse(node.value))
+            if not m:
+                fail(rel, node, "target_size formula")
+            tgt = [int(x) for x in m.groups()]
+    if tgt is None:
+        fail(rel, bl, "target_size not found")
+    rec(rel, bl, "_block_eigh_projector target_size (div, lo, hi)", tgt)
+    # does a skipped sub-block contribute its coordinates to the complement?
+    skipped_cmplt = False
+    uses_bound = "cmplt = cmplt[:, :col_id_cmplt]" in bsrc
+    for node in ast.walk(bl):
+        if isinstance(node, ast.If) and ast.unparse(node.test) == "rank > 0" and node.orelse:
+            o = ast.unparse(node.orelse)
+            if "np.eye(end - begin)" in o and "cmplt[begin:end, col_id_cmplt:col_end_cmplt]" in o \
+                    and "col_id_cmplt = col_end_cmplt" in o:
+                skipped_cmplt = True
+    rec(rel, bl, "skipped sub-blocks enter the complement", skipped_cmplt and uses_bound)
+    for w in ("p_small = p_block[begin:end, begin:end]", "rank = int(round(np.trace(p_small)))",
+              "eigh_projector(p_small, return_complement=True", "eigvecs_block[begin:end, col_id:col_end] = eigvecs",
+              "cmplt[begin:end, col_id_cmplt:col_end_cmplt] = cmplt_small",
+              "p_block[begin:end, begin:end] -= eigvecs @ eigvecs.T", "p_block_rem = cmplt.T @ p_block @ cmplt",
+              "eigvecs_block[:, col_id:col_end] = cmplt @ eigvecs", "get_batch_slice(p_size, target_size)"):
+        if w not in bsrc:
+            fail(rel, bl, f"_block_eigh_projector: expected `{w}`")
+    sr = find_func(mod, "eigsh_projector_sumrule", rel)
+    thr = None
+    for a, d in zip(sr.args.args[-len(sr.args.defaults):], sr.args.defaults):
+        if a.arg == "size_threshold":
+            thr = lit(d, rel)
+    srs = ast.unparse(sr)
+    if "if p.shape[0] > size_threshold" not in srs or "eigsh_projector_sumrule_large(p" not in srs \
+            or "eigsh_projector_sumrule_stable(p" not in srs:
+        fail(rel, sr, "eigsh_projector_sumrule switch")
+    rec(rel, sr, "eigsh_projector_sumrule size_threshold", thr)
+    for fname in ("eigsh_projector_sumrule_stable", "eigsh_projector_sumrule_large"):
+        f = ast.unparse(find_func(mod, fname, rel))
+        for w in ("group = _find_projector_blocks(p)", "p_block = p[np.ix_(ids, ids)].toarray()",
+                  "rank = int(round(np.trace(p_block)))", "if rank > 0", "eigvecs_full[ids, col_id:col_end] = eigvecs",
+                  "return eigvecs_full[:, :col_id]"):
+            if w not in f:
+                fail(rel, mod, f"{fname}: expected `{w}`")
+    rc = ast.unparse(find_func(mod, "_recover_eigvecs_from_uniq_eigvecs", rel))
+    for w in ("np.repeat([i for ll in labels for i in group[ll]], n_col)",
+              "for seq, _ in enumerate(labels) for i in range(n_row) for j in range(col_id + seq * n_col, col_id + (seq + 1) * n_col)",
+              "np.tile(eigvecs.flatten(), num_labels)", "col_id += n_col * num_labels"):
+        if w not in rc:
+            fail(rel, mod, f"_recover_eigvecs_from_uniq_eigvecs: expected `{w}`")
+    cp = ast.unparse(find_func(mod, "_compr_projector", rel))
+    for w in ("_, col_p = p.nonzero()", "col_p = np.unique(col_p)", "p = p[col_p].T"):
+        if w not in cp:
+            fail(rel, mod, f"_compr_projector: expected `{w}`")
+    tol_e = f"{tol:e}"
+    mant, ex = tol_e.split("e")
+    if float(mant) != 1.0:
+        fail(rel, ep, "tolerance is not a power of ten")
+    out = ["/- REGENERATED by tools/extract.py from utils/eig_tools.py — do not edit. -/",
+           "import SymfcModel.Model.Types", "namespace Symfc.Gen", "open Symfc", "",
+           f"/-- eigenvalue range tolerance = 10^(-{-int(ex)}) -/", f"def eigTolExp : Nat := {-int(ex)}",
+           f"def oneByOneRule : OneByOneRule := .{rule}",
+           f"def skippedSubBlockInComplement : Bool := {lean_list(skipped_cmplt and uses_bound)}",
+           f"def eigSizeThreshold : Nat := {thr}",
+           f"def eigTargetDiv : Nat := {tgt[0]}", f"def eigTargetLo : Nat := {tgt[1]}", f"def eigTargetHi : Nat := {tgt[2]}",
+           "", "end Symfc.Gen"]
+    return "\n".join(out) + "\n"
+
+
+# ----------------------------------------------------------------------------------------
+# G5: sum rules / coset projector
+# ----------------------------------------------------------------------------------------
+
+def gen_sumrule():
+    out = ["/- REGENERATED by tools/extract.py from utils/matrix_tools_O{2,3,4}.py, utils/utils_O{2,3,4}.py — do not edit. -/",
+           "import SymfcModel.Model.Types", "import SymfcModel.Model.SumRule", "namespace Symfc.Gen", "open Symfc", ""]
+    for n in (2, 3, 4):
+        rel = f"utils/matrix_tools_O{n}.py"
+        mod = parse(rel)
+        big = "N" * n
+        p3 = 3 ** n
+        rest = "natom" if n == 2 else ("NN" if n == 3 else "NNN")
+        for variant, fname in (("fast", f"compressed_projector_sum_rules_O{n}"),
+                               ("stable", f"compressed_projector_sum_rules_O{n}_stable")):
+            fn = find_func(mod, fname, rel)
+            src = ast.unparse(fn)
+            div = "other"
+            for node in ast.walk(fn):
+                if isinstance(node, ast.AugAssign) and ast.unparse(node.target) == "proj_cplmt" and isinstance(node.op, ast.Div):
+                    v = ast.unparse(node.value)
+                    div = {"natom": "natom", "n_lp * natom": "nlpNatom", "natom * n_lp": "nlpNatom"}.get(v, "other")
+            indep = "nonzero[indep_atoms" in src
+            if indep:
+                idx = "indep_atoms" + ", :" * (n - 1)
+                if f"nonzero[{idx}] = True" not in src:
+                    fail(rel, fn, f"{fname}: independent-atom mask must be on axis 0: nonzero[{idx}] = True")
+            want = [
+                f"decompr_idx = atomic_decompr_idx.reshape((natom, {rest})).T.reshape(-1) * {p3}",
+                f"for begin, end in zip(*get_batch_slice({big}, batch_size))",
+                f"batch_size = optimize_batch_size_sum_rules_O{n}(natom, n_batch=n_batch)",
+                "size = end - begin", f"size_vector = size * {p3}", "size_row = size_vector // natom",
+                f"np.repeat(np.arange(size_row), natom)[np.tile(nonzero_b, {p3})]",
+                "decompr_idx_b = decompr_idx[begin:end][nonzero_b]",
+                "c_sum_cplmt = dot_product_sparse(c_sum_cplmt, n_a_compress_mat, use_mkl=use_mkl)",
+                "proj_cplmt += dot_product_sparse(c_sum_cplmt.T, c_sum_cplmt, use_mkl=use_mkl)",
+                "return scipy.sparse.identity(proj_cplmt.shape[0]) - proj_cplmt",
+                f"fc_cutoff.nonzero_atomic_indices_fc{n}()",
+            ]
+            if variant == "fast":
+                want += ["nonzero = nonzero & nonzero_c",
+                         f"nonzero_c = nonzero_c.reshape((natom, {rest})).T.reshape(-1)",
+                         "if size_data == 0"]
+            else:
+                want += [f"nonzero = nonzero.reshape((natom, {rest})).T.reshape(-1)",
+                         "np.repeat(np.arange(size_row), natom)"]
+            for w in want:
+                if w not in src:
+                    fail(rel, fn, f"{fname}: expected `{w}`")
+            rec(rel, fn, f"{fname} divisor / indep mask", [div, indep])
+            out.append(f"def sumRuleCfgO{n}_{variant} : SumRuleCfg := {{ indepMask := {lean_list(indep)}, divisor := .{div} }}")
+        ob = find_func(mod, f"optimize_batch_size_sum_rules_O{n}", rel)
+        osrc = ast.unparse(ob)
+        bs = "natom * (natom // n_batch)" if n == 2 else f"natom ** {n-1} * (natom // n_batch)"
+        for w in (f"batch_size = {bs}", "if n_batch > natom", "return batch_size"):
+            if w not in osrc:
+                fail(rel, ob, f"optimize_batch_size_sum_rules_O{n}: expected `{w}`")
+        rec(rel, ob, f"O{n} sum-rule batch size", bs)
+        out.append(f"/-- `batch_size = natom^{n-1} * (natom // n_batch)` -/")
+        out.append(f"def sumRuleBatchPowO{n} : Nat := {n-1}")
+        # default n_batch: natom // min(natom, A) below threshold T, else natom // B
+        import re
+        m = re.search(r"if natom < (\d+):\s+n_batch = natom // min\(natom, (\d+)\)\s+else:\s+n_batch = natom // (\d+)", osrc)
+        if n >= 3:
+            if not m:
+                fail(rel, ob, "default n_batch formula")
+            out.append(f"def sumRuleDefaultO{n} : Nat × Nat × Nat := ({m.group(1)}, {m.group(2)}, {m.group(3)})")
+        # coset projector
+        rel2 = f"utils/utils_O{n}.py"
+        mod2 = parse(rel2)
+        for variant, fname in (("fast", f"get_compr_coset_projector_O{n}"),
+                               ("stable", f"get_compr_coset_projector_O{n}_stable")):
+            try:
+                fn = find_func(mod2, fname, rel2)
+            except Untranslatable:
+                if n == 2 and variant == "stable":
+                    continue
+                raise
+            src = ast.unparse(fn)
+            fac = None
+            for node in ast.walk(fn):
+                if isinstance(node, ast.Assign) and ast.unparse(node.targets[0]) == "factor":
+                    fac = ast.unparse(node.value)
+            fast_like = "nonzero_indep_atom" in src
+            exp_fac = "1 / len(spg_reps.unique_rotation_indices)" if fast_like else \
+                "1 / n_lp / len(spg_reps.unique_rotation_indices)"
+            if fac != exp_fac:
+                fail(rel2, fn, f"{fname}: factor {fac} does not match the mask variant ({exp_fac})")
+            want = [f"permutation = spg_reps.get_sigma{n}_rep(i, nonzero=nonzero)",
+                    "(atomic_decompr_idx[permutation], col)",
+                    "for i, _ in enumerate(spg_reps.unique_rotation_indices)"]
+            if n >= 3:
+                want += ["cosets[i % n_cosets] += mat", "return sum(cosets)",
+                         "n_cosets = min([int(np.sqrt(len(spg_reps.unique_rotation_indices))), 4])",
+                         "mat = kron(mat, spg_reps.r_reps[i] * factor).tocsr()"]
+                if fast_like:
+                    want += [f"atom_indices = np.arange(N ** {n}) // N ** {n-1}", "nonzero = nonzero & nonzero_indep_atom"]
+            else:
+                want += ["coset_reps_sum += mat", "mat = kron(mat, spg_reps.r_reps[i] * factor)"]
+            for w in want:
+                if w not in src:
+                    fail(rel2, fn, f"{fname}: expected `{w}`")
+            rec(rel2, fn, f"{fname} factor / first-atom mask", [fac, fast_like])
+            out.append(f"def cosetFastMaskO{n}_{variant} : Bool := {lean_list(fast_like)}")
+    out += ["", "end Symfc.Gen"]
+    return "\n".join(out) + "\n"
+
+
+# ----------------------------------------------------------------------------------------
 
 GENERATORS = {
     "PermTables": gen_perm_tables,
     "Cutoff": gen_cutoff,
+    "Solver": gen_solver,
+    "Api": gen_api,
+    "Eig": gen_eig,
+    "SumRule": gen_sumrule,
 }
 
 
